@@ -106,6 +106,14 @@ T = [
  ('C13-r8m3', '/tmp/mut-R8/mutants/3', 'C13', [('demo_test.rs', 'parser/src/cfg/key_override.rs', P, 'r8m3_')]),
  ('C13-r8m4', '/tmp/mut-R8/mutants/4', 'C13', [('demo_test.rs', 'src/tests/sim_tests/override_tests.rs', M, 'r8m4_')]),
  ('C13-r8m5', '/tmp/mut-R8/mutants/5', 'C13', [('demo_test.rs', 'src/tests/sim_tests/override_tests.rs', M, 'r8m5_')]),
+ # ---- round 9: what came under contract last (tick_wt whole, custom tap-hold closures, get_active_chord, parse_switch, chords-v2 table, Custom arm)
+ ('C05-r9m1', '/tmp/mut-R9/mutants/1', 'C05', [('demo_test.rs', 'keyberon/src/layout.rs', K, 'r9m1_')]),
+ ('C05-r9m2', '/tmp/mut-R9/mutants/2', 'C05', [('demo_test.rs', 'src/tests/sim_tests/release_sim_tests.rs', M, 'r9m2_')]),
+ ('C05-r9m3', '/tmp/mut-R9/mutants/3', 'C05', [('demo_test.rs', 'src/tests/sim_tests/release_sim_tests.rs', M, 'r9m3_')]),
+ ('C09-r9m4', '/tmp/mut-R9/mutants/4', 'C09', [('demo_test.rs', 'src/tests/sim_tests/chord_sim_tests.rs', M, 'r9m4_')]),
+ ('C10-r9m5', '/tmp/mut-R9/mutants/5', 'C10', [('demo_test.rs', 'src/tests/sim_tests/switch_sim_tests.rs', M, 'r9m5_')]),
+ ('C14-r9m6', '/tmp/mut-R9/mutants/6', 'C14', [('demo_test.rs', 'src/tests/sim_tests/repeat_sim_tests.rs', M, 'r9m6_')]),
+ ('C06-r9m7', '/tmp/mut-R9/mutants/7', 'C06', [('demo_test.rs', 'src/tests/sim_tests/oneshot_tests.rs', M, 'r9m7_')]),
 ]
 ENV = dict(os.environ, CARGO_TARGET_DIR=TGT, CARGO_NET_OFFLINE='true')
 
